@@ -54,7 +54,7 @@ class ClearkeyHandler(RequestHandlerBase):
                 "keys": keys,
                 "type": req["type"]
             }
-        except (TypeError, ValueError, KeyError) as err:
+        except (AttributeError, TypeError, ValueError, KeyError) as err:
             result["error"] = f'Error: {err}'
         return jsonify(result)
 
